@@ -29,6 +29,18 @@ def caller(chain, depth, locals_at, local_vals, dm_args):
 '''
 
 
+class LoggingDict(dict):
+    """extra_namespace that records which names it is asked for."""
+
+    def __init__(self, *a, **k):
+        super().__init__(*a, **k)
+        self.asked = []
+
+    def __getitem__(self, key):
+        self.asked.append(key)
+        return super().__getitem__(key)
+
+
 class Marker:
     """A callable / attribute carrier whose calls return a constant column identifying it."""
 
@@ -42,6 +54,9 @@ class Marker:
 
 def marker_value(scope, depth):
     return {"data": 7, "locals": 100 + depth, "globals": 200 + depth, "extra": 300, "locals_other_frame": 100, "globals_other_frame": 200}[scope]
+
+
+LAST_PROBED = [False]
 
 
 def run_config(cfg, builtin_name="scale"):
@@ -102,17 +117,21 @@ def run_config(cfg, builtin_name="scale"):
     for d in range(4):
         if ("globals" in defined and d == env) or ("globals_other_frame" in decoys and d != env):
             mods[d][name] = sentinel("globals", d)
-    extra = {}
+    extra = LoggingDict(fv_always_there=1)
     if "extra" in defined:
         extra[name] = sentinel("extra", 0)
     if role == "arg":
         extra["fv_rec"] = rec
     chain = [m["caller"] for m in mods]
     dm_args = ((formula, df), {"env": env, "extra_namespace": extra})
+    LAST_PROBED[0] = False
     try:
-        with warnings.catch_warnings():
-            warnings.simplefilter("ignore")
-            dm = chain[3](chain, 3, locals_at, local_vals, dm_args)
+        try:
+            with warnings.catch_warnings():
+                warnings.simplefilter("ignore")
+                dm = chain[3](chain, 3, locals_at, local_vals, dm_args)
+        finally:
+            LAST_PROBED[0] = name in extra.asked
     except Exception as e:  # pylint: disable=broad-except
         msg = str(e)
         if role == "callee" and form == "dotted" and isinstance(e, AttributeError) and ("'Scale'" in msg or "'Treatment'" in msg):
@@ -155,16 +174,24 @@ def _replay(case):
     bname = case.get("builtin_name", "scale")
     # a backquoted name that is not an identifier cannot live in locals (it still can in globals / extra / data)
     got, err = run_config(cfg, bname)
+    probed = bool(LAST_PROBED[0])
     want = case["winner"]
     if cfg["form"] == "backquoted" and "builtin" not in cfg["defined"] and "locals" in cfg["defined"]:
         # 'probe nm' cannot be a Python local: that scope is effectively undefined for this name
         d2 = [s for s in cfg["defined"] if s != "locals"]
         order = ["data", "builtin", "locals", "globals", "extra"]
         want = next((s for s in order if s in d2), "raise")
+    effective = [x for x in cfg["defined"] if not (x == "locals" and cfg["form"] == "backquoted" and "builtin" not in cfg["defined"])]
+    case["_event"] = {"role": cfg["role"], "defined": effective, "probed": probed, "winner": got.split(":")[0] if got.startswith("decoy") else got}
     if got != want:
         return ({"clause": "wrong_scope_wins" if got != "raise" and want != "raise" else ("undefined_name_resolved" if want == "raise" else "defined_name_not_found"),
                  "want": want, "got": got.split("@")[0], "role": cfg["role"], "form": cfg["form"]}, {"config": cfg, "builtin_name": bname, "want": want, "got": got, "error": err})
     return None
+
+
+def _replay2(case):
+    prob = _replay(case)
+    return prob, case.get("_event")
 
 
 def main(tier, seed):
@@ -194,14 +221,37 @@ def main(tier, seed):
         shutil.rmtree(tmp, ignore_errors=True)
     # the built-in scope holds two registries (transforms and encodings): probe a name of each
     cases = cases + [dict(c, builtin_name="Treatment") for c in cases if "builtin" in c["cfg"]["defined"]]
-    results = common.pool_map(_replay, cases)
+    results2 = common.pool_map(_replay2, cases)
+    results = [r[0] for r in results2]
+    events = []
+    for k, r in enumerate(results2):
+        if r[1] is not None and not r[1]["winner"].startswith(("other", "decoy")):
+            events.append(dict(r[1], id=k + 1))
+    tmp = tlc.scratch_dir("fv_c11t_")
+    try:
+        path = os.path.join(tmp, "t.ndjson")
+        common.write_ndjson(path, events)
+        res = tlc.run_tlc("Scopes_Trace", env={"FV_TRACE": path}, workers=1, heap="2g", timeout=900)
+        rep.add_tlc("Scopes_Trace", res)
+        if not any(v[1] == "done" and v[2] == len(events) for v in res.fv):
+            raise tlc.TLCFailure("Scopes_Trace did not consume the whole trace")
+        rep.cov["traces_validated_against_impl"] = len(events)
+        for v in res.fv:
+            if v[1] == "bad":
+                c = cases[v[2] - 1]
+                if v[3] == "wrong_scope_wins":
+                    continue  # already reported by the replay above
+                # the path differs from the modelled machine although the winner is right: drift
+                rep.cov["impl_drift"] += 1
+                rep.notes.setdefault("path_drift_sample", {"clause": v[3], "config": c["cfg"]})
+    finally:
+        shutil.rmtree(tmp, ignore_errors=True)
     for c, prob in zip(cases, results):
         rep.cov["evaluations"] += 1
         if len(c["cfg"]["defined"]) + len(c["cfg"]["decoys"]) >= 2:
             rep.nontrivial_key(repr(sorted(c["cfg"].items())))
         if prob is not None:
             rep.violation(*prob)
-    rep.cov["traces_validated_against_impl"] = 0
     for c in cases[:: max(1, len(cases) // 3)][:3]:
         rep.sample({"kind": "S->C scope configuration", "config": c["cfg"], "expected_winner": c["winner"], "probes": c["probes"]})
     rep.exhaustive = True
